@@ -601,6 +601,10 @@ class Interp:
             rty = self.prog.ty(dest_ty).arg[0]
         tlo, thi = self.ctx.int_range(rty)
         isbool = self.prog.ty(a.ty).tag == "Bool"
+        if not isbool and not checked and op.replace("Unchecked", "") in ("BitAnd", "BitOr", "Shl", "Shr"):
+            z = self.kbits_binop(st, op.replace("Unchecked", ""), a, b, rty, taint)
+            if z is not None:
+                return z
         res = None
         facts = []   # (coef about a): z - a in [dlo, dhi]
         scale = None
@@ -981,6 +985,91 @@ class Interp:
         if ck == "Subtype":
             return a
         raise Unsupported(f"cast {ck}")
+
+
+    # ------------------------------------------------------------------ known bits (two's-complement patterns)
+    def kb_of(self, st, v, W):
+        """(mask, value) over the W-bit two's-complement pattern of integer value v, or None when nothing is known"""
+        lo, hi = st.itv[v.vid]
+        allb = (1 << W) - 1
+        if lo == hi:
+            return allb, lo & allb
+        p = st.prov.get(v.vid)
+        if p and p[0] == "kbits":
+            return p[2][0] & allb, p[2][1] & allb
+        if lo == 0 and hi == 1:
+            return allb & ~1, 0            # a bool widened to an integer: every bit but the lowest is 0
+        return None
+
+    def kbits_binop(self, st, base, a, b, rty, taint):
+        t = self.prog.ty(rty)
+        if t.tag not in ("Int", "Uint"):
+            return None
+        W = t.bits()
+        allb = (1 << W) - 1
+        ka, kb = self.kb_of(st, a, W), self.kb_of(st, b, W)
+        pa, pb = st.prov.get(a.vid), st.prov.get(b.vid)
+        if not ((pa and pa[0] == "kbits") or (pb and pb[0] == "kbits")):
+            # only when a partition with known bits is involved; rules that build integers bit by bit from booleans
+            # (`(x << 1) | bit`) switch on the eager mode, where constants and 0/1 values count as known-bits values
+            if not (self.ctx.hooks.get("kbits_eager") and ka is not None and (kb is not None or base in ("Shl", "Shr"))):
+                return None
+        if base in ("Shl", "Shr"):
+            lb, hb = st.itv[b.vid]
+            if lb != hb or not (0 <= lb < W) or ka is None:
+                return None
+            k = lb
+            m, v = ka
+            if base == "Shl":
+                m2, v2 = ((m << k) | ((1 << k) - 1)) & allb, (v << k) & allb
+            else:
+                signed = self.prog.ty(a.ty).tag == "Int"
+                top = ((1 << k) - 1) << (W - k) if k else 0
+                sign_known = (m >> (W - 1)) & 1
+                sign = (v >> (W - 1)) & 1
+                m2, v2 = m >> k, v >> k
+                if not signed:
+                    m2 |= top
+                elif sign_known:
+                    m2 |= top
+                    v2 |= top if sign else 0
+        elif base == "BitAnd":
+            if ka is None and kb is None:
+                return None
+            ma, va = ka if ka else (0, 0)
+            mb, vb = kb if kb else (0, 0)
+            zeros = (ma & ~va) | (mb & ~vb)            # a bit known 0 on either side is 0
+            ones = (ma & va) & (mb & vb)               # known 1 on both sides
+            m2, v2 = (zeros | ones) & allb, ones & allb
+        else:   # BitOr
+            if ka is None and kb is None:
+                return None
+            ma, va = ka if ka else (0, 0)
+            mb, vb = kb if kb else (0, 0)
+            ones = (ma & va) | (mb & vb)
+            zeros = (ma & ~va) & (mb & ~vb)
+            m2, v2 = (zeros | ones) & allb, ones & allb
+        # interval implied by the pattern
+        signed = t.tag == "Int"
+        unk = allb & ~m2
+        lo_p, hi_p = v2, v2 | unk
+        if signed:
+            sb = 1 << (W - 1)
+            if m2 & sb:
+                if v2 & sb:
+                    lo, hi = lo_p - (1 << W), hi_p - (1 << W)
+                else:
+                    lo, hi = lo_p, hi_p
+            else:
+                lo, hi = (v2 | sb | (unk & ~sb)) - (1 << W) if True else 0, (v2 | (unk & ~sb))
+                lo = ((v2 | sb) & allb) - (1 << W)         # most negative: sign set, other unknown bits clear
+                hi = (v2 | (unk & ~sb))                    # most positive: sign clear, other unknown bits set
+        else:
+            lo, hi = lo_p, hi_p
+        z = self.ctx.mk_int(st, lo, hi, rty, taint=taint)
+        if m2 != allb:
+            st.prov[z.vid] = ("kbits", (), (m2, v2))
+        return z
 
     # ------------------------------------------------------------------ floats
     def float_binop(self, st, op, a, b, dest_ty):
